@@ -128,6 +128,21 @@ class Ctx:
             if name in dbg:
                 ndbg += 1
                 self.ob('cfg/%s/debug-assert-pure' % name, not dbg[name][1], RULE2, where, 'no write, mutable borrow or move of anything but temporaries', dbg[name][1])
+        # configuration predicates no analysed configuration flips (target_*, panic, ...): fail closed where they guard interpreted code
+        FLIPPED = {'nightly', 'stable', 'debug_assertions', 'test'}   # channel and profile: this pass; test: the analysed build is the non-test one users get
+        byfile = {}
+        for k, (name, _pub, file, lo, hi) in keys.items(): byfile.setdefault(file, []).append((lo, hi, k, name))
+        unknown = [r for r in a.get('cfg_atoms', []) if not (r[3] in FLIPPED or r[3].startswith('feature='))]
+        self.counts['config:cfg predicates in the crate'] = len(a.get('cfg_atoms', [])); self.counts['config:cfg predicates outside {feature, channel, profile, test}'] = len(unknown)
+        for file, line, form, atom in unknown:
+            bodies = [(lo, hi, k, name) for lo, hi, k, name in byfile.get(file, []) if lo <= line <= hi]
+            if not bodies:
+                after = sorted(x for x in byfile.get(file, []) if x[0] >= line)
+                bodies = [x for x in after if x[0] == after[0][0]] if after else []
+            hit = sorted(set(name for lo, hi, k, name in bodies if k in self.visited))
+            if self.pid == 'C20' and not hit: hit = ['(crate)']
+            for name in hit:
+                self.viol('incomplete/cfg-predicate/%s/%s' % (atom, name), rule='fail closed: code this check interprets is conditional on a configuration predicate that no analysed configuration flips (only cargo features, the channel cfg and debug assertions are compared)', where='%s:%s %s(%s)' % (file, line, form, atom), found='%s(.. %s ..) at %s:%s' % (form, atom, file, line), expected='configuration predicates over cargo features, nightly/stable, debug_assertions, test only')
         self.counts['config:bodies compared'] = n; self.counts['config:bodies with debug_assert'] = ndbg
         self.counts['config:bodies of the crate'] = len(fa)
         if n == 0 and not self.only and self.visited:
